@@ -7,6 +7,7 @@ import z3
 NO_DOLLAR = [z3.Not(char_in_sym('sql', '$'))]      # precondition of the symbolic contracts: the statement text contains no '$'
 from vf.effects import Patch
 from pony.orm import core, ormtypes
+from contracts import c30_e2e as E2E
 
 META = dict(
     level='proof',
@@ -16,7 +17,7 @@ META = dict(
     trusted_base=['RecordingDict stands for the module-level dict (get / __setitem__ recorded)',
                   'symbolic text: "$" absent (fork on str.index raising ValueError); texts containing "$" are covered by the bounded layout contract'],
     assumptions=['layout: statements assembled from <= 3 (quick) / 4 (thorough) segments out of 9 segment kinds, all five paramstyles (BOUNDED)',
-                 'evaluation of $expr in the caller\'s frame (sys._getframe depth) is not covered'],
+                 'evaluation of $expr in the caller\'s frame and raw_sql() fragments inside queries: only the BOUNDED end-to-end family (c30_e2e)'],
 )
 STYLES = ['qmark', 'format', 'numeric', 'named', 'pyformat']
 
@@ -208,4 +209,7 @@ CONTRACTS = [
     Contract('adapt_sql.order_independence', 'pony.orm.core:adapt_sql', _hist_configs, _hist_case,
              [('warm_equals_cold', lambda cfg, i, path: path.outcome == 'ret' and path.value[0] == path.value[1])], level='bounded',
              bound='pairs of small statements; the unbounded statement is the cache-key contract above'),
+    Contract('raw_sql.end_to_end', ['pony.orm.core:Database._exec_raw_sql', 'pony.orm.core:adapt_sql', 'pony.orm.ormtypes:raw_sql', 'pony.orm.ormtypes:parse_raw_sql', 'pony.orm.ormtypes:RawSQLType',
+                                    'pony.orm.sqltranslation:RawSQLMonad', 'pony.orm.core:EntityMeta._find_by_sql_'], E2E.configs, E2E.case,
+             [('expected_answer_and_independent_of_the_statement_run_before', E2E.spec)], level='bounded', bound=E2E.BOUND),
 ]
